@@ -275,7 +275,7 @@ static void case_containment(Rng& rng, uint64_t index)
 // (3) laws
 static void case_law(Rng& rng, uint64_t index)
 {
-	int which = (int) (index % 10);
+	int which = (int) (index % 12);
 	std::mt19937 g((uint32_t) rng.next());
 	size_t N = law_N();
 	mark_nontrivial();
@@ -459,6 +459,43 @@ static void case_law(Rng& rng, uint64_t index)
 			judge(bounded ? "metropolis-bounded-kolmogorov-smirnov" : "metropolis-unbounded-kolmogorov-smirnov", ks, KS_LIMIT, [&] { return J().d("sqrtN_D", ks); });
 			break;
 		}
+		case 10:
+		case 11: {
+			// compact-support targets strictly inside a larger bounded domain: the chain usually starts where the density is exactly zero
+			// (ratio 0/0) and has to walk into the support; afterwards every sample lies inside the support and follows the target law
+			unsigned thin = (unsigned) rng.irange(25, 40);
+			size_t Nm	  = N / 20;
+			double sigma  = rng.uni(0.25, 0.5);
+			if(which == 10)
+			{
+				set_params(J().str("sampler", "Sample_Metropolis").str("target", "(1-x^2)+ inside the domain [-3,3]").d("sigma", sigma).i("thinning", thin).i("N", (long long) Nm));
+				xs = Sample_Metropolis(g, [](double x) { return x * x < 1 ? 1 - x * x : 0.0; }, sigma, (unsigned) Nm, thin, 8000, {-3.0, 3.0});
+				require("metropolis-law-run-returns-requested-count", xs.size() == Nm, [&] { return J().i("returned", (long long) xs.size()); });
+				size_t outside = 0;
+				for(double x : xs)
+					outside += !(x * x < 1);
+				require("metropolis-compact-support-samples-inside-the-support", outside == 0, [&] { return J().i("outside", (long long) outside).i("N", (long long) xs.size()); });
+				double ks = ks_stat(xs, [](double x) { double t = std::max(-1.0, std::min(1.0, x)); return 0.5 + 0.75 * (t - t * t * t / 3); });
+				judge("metropolis-compact-support-kolmogorov-smirnov", ks, KS_LIMIT, [&] { return J().d("sqrtN_D", ks); });
+			}
+			else
+			{
+				set_params(J().str("sampler", "Sample_Metropolis_2D").str("target", "(1-x^2-y^2)+ inside the domain [-3,3]^2").d("sigma", sigma).i("thinning", thin).i("N", (long long) Nm));
+				auto v = Sample_Metropolis_2D(g, [](double x, double y) { double r2 = x * x + y * y; return r2 < 1 ? 1 - r2 : 0.0; }, {sigma, sigma}, (unsigned) Nm, thin, 8000, {-3.0, 3.0, -3.0, 3.0});
+				require("metropolis-law-run-returns-requested-count", v.size() == Nm, [&] { return J().i("returned", (long long) v.size()); });
+				size_t outside = 0;
+				for(auto& q : v)
+				{
+					double r2 = q.first * q.first + q.second * q.second;
+					outside += !(r2 < 1);
+					xs.push_back(std::sqrt(r2));
+				}
+				require("metropolis-compact-support-samples-inside-the-support", outside == 0, [&] { return J().i("outside", (long long) outside).i("N", (long long) v.size()); });
+				double ks = ks_stat(xs, [](double r) { double t = std::min(1.0, r); return 2 * t * t - t * t * t * t; });
+				judge("metropolis-compact-support-kolmogorov-smirnov", ks, KS_LIMIT, [&] { return J().d("sqrtN_D_radius", ks); });
+			}
+			break;
+		}
 		default: {
 			// Metropolis 2D: bounded x+y on the unit square, or an unbounded anisotropic Gaussian; marginals by KS
 			bool bounded = (index / 10) % 2;
@@ -497,6 +534,6 @@ static void setup()
 	add_generator("replayed_scripts", ctx().count(1800, 180000), case_reproducible);
 	add_generator("metropolis_count_grid", 784, case_metropolis_grid);
 	add_generator("containment", ctx().count(200, 20000), case_containment);
-	add_generator("laws", ctx().count(80, 800), case_law, 1800.0);
+	add_generator("laws", ctx().count(96, 960), case_law, 1800.0);
 }
 VERIF_MAIN("C18", setup)
